@@ -34,6 +34,60 @@ def key_of(T, v):
     return None
 
 
+def _built_list(r):
+    """The locally built list behind an emptiness test: the `vecof` itself, or `vecof.join(sep)` when every pushed piece is
+    visibly non-empty text (then the joined string is empty exactly when the list is)."""
+    r = vt.strip(r)
+    if isinstance(r, dict) and r.get('k') == 'vecof':
+        return r
+    if isinstance(r, dict) and r.get('k') == 'call' and r.get('f') == 'join' and r.get('recv') is not None:
+        inner = vt.strip(r['recv'])
+        if isinstance(inner, dict) and inner.get('k') == 'vecof':
+            def nonempty(x):
+                x = vt.strip(x)
+                while isinstance(x, dict) and x.get('k') == 'call' and x.get('recv') is not None and x.get('f') in ('to_string', 'to_owned', 'into', 'clone') and not x.get('args'):
+                    x = vt.strip(x['recv'])
+                if isinstance(x, dict) and x.get('k') == 'lit' and x.get('t') == 'str':
+                    return bool(x.get('v'))
+                if isinstance(x, dict) and x.get('k') == 'fmt':
+                    return any(isinstance(p_, dict) and p_.get('lit') for p_ in x.get('parts', [])) or any(isinstance(p_, str) and p_ for p_ in x.get('parts', []))
+                return False
+            if all(nonempty(it.get('v')) for it in inner.get('items', [])):
+                return inner
+    return None
+
+
+def _cmp_key(v):
+    """Key of `a == b` / `a != b` when neither side is itself a boolean expression (then the comparison is one atomic test,
+    the same whichever way round it is written)."""
+    a = [vt.unvar(x) for x in v.get('args', [])]
+    if len(a) != 2:
+        return None
+
+    def boolish(x):
+        while isinstance(x, dict) and x.get('k') in ('ref', 'paren', 'deref'):
+            x = vt.unvar(x.get('v'))
+        return isinstance(x, dict) and ((x.get('k') == 'lit' and x.get('t') == 'bool') or x.get('k') == 'op' or (x.get('k') == 'call' and x.get('f') in PRED_CALLS) or str(x.get('ty') or '') == 'bool')
+    if boolish(a[0]) or boolish(a[1]):
+        return None
+    ks = sorted(vt.ckey(x) for x in a)
+    return 'cmp:' + ks[0] + '==' + ks[1]
+
+
+def _option_presence(r):
+    """(condition, negated) when r is `if c { Some(..) } else { None }` (how astq reads `c.then_some(x)` / `c.then(|| x)`)."""
+    r = vt.unvar(r)
+    while isinstance(r, dict) and r.get('k') in ('ref', 'paren', 'deref'):
+        r = vt.unvar(r.get('v'))
+    if isinstance(r, dict) and r.get('k') == 'cond':
+        t, e = vt.unvar(r.get('t')), vt.unvar(r.get('e'))
+        if isinstance(t, dict) and t.get('k') == 'some' and isinstance(e, dict) and e.get('k') == 'none':
+            return r['c'], False
+        if isinstance(e, dict) and e.get('k') == 'some' and isinstance(t, dict) and t.get('k') == 'none':
+            return r['c'], True
+    return None
+
+
 def eval3(T, v, asg):
     """True / False / None (unknown) for condition value tree v under assignment {key: bool}."""
     if not isinstance(v, dict):
@@ -68,6 +122,9 @@ def eval3(T, v, asg):
             x, y = eval3(T, a[0], asg), eval3(T, a[1], asg)
             if x is not None and y is not None:
                 return (x == y) if op == '==' else (x != y)
+            ck = _cmp_key(v)
+            if ck is not None and ck in asg:
+                return asg[ck] if op == '==' else (not asg[ck])
             return None
     if kk == 'cond':
         c = eval3(T, v['c'], asg)
@@ -78,14 +135,22 @@ def eval3(T, v, asg):
         x, y = eval3(T, v['t'], asg), eval3(T, v['e'], asg)
         return x if x == y else None
     if kk == 'call' and v.get('f') == 'is_empty' and isinstance(v.get('recv'), dict):
-        r = vt.strip(v['recv'])
-        if isinstance(r, dict) and r.get('k') == 'vecof':
+        r = _built_list(v['recv'])
+        if r is not None:
             states = [frames_hold(T, it.get('guard', []), asg) for it in r.get('items', [])]
             if any(x is True for x in states):
                 return False
             if all(x is False for x in states):
                 return True
             return None
+    if kk == 'call' and v.get('f') in ('is_some', 'is_none') and isinstance(v.get('recv'), dict) and not v.get('args'):
+        pr_ = _option_presence(v['recv'])
+        if pr_ is not None:
+            x = eval3(T, pr_[0], asg)
+            if x is None:
+                return None
+            present = (not x) if pr_[1] else x
+            return present if v['f'] == 'is_some' else (not present)
     k = key_of(T, v)
     if k is not None and k in asg:
         return asg[k]
@@ -198,6 +263,11 @@ def normalize_frames(frames):
             if vs == ['Some'] or vs == ['None']:
                 out.append({'k': 'if', 'c': {'k': 'iflet', 'scrut': fr['scrut'], 'variants': ['Some'], 'pat': 'Some (_)'}, 'neg': vs == ['None'], 'line': fr.get('line'), 'from_arm': True})
                 continue
+            # `match flag { true => .., false => .. }` is `if flag { .. } else { .. }`
+            bs = [v_.replace('lit:', '') for v_ in vs]
+            if bs == ['true'] or bs == ['false']:
+                out.append({'k': 'if', 'c': fr['scrut'], 'neg': bs == ['false'], 'line': fr.get('line'), 'from_arm': True})
+                continue
         out.append(fr)
     return out
 
@@ -209,6 +279,10 @@ def normalize_conds(conds):
             vs = [str(x).split('::')[-1] for x in c[2]]
             if vs == ['Some'] or vs == ['None']:
                 out.append(('c', {'k': 'iflet', 'scrut': c[1], 'variants': ['Some'], 'pat': 'Some (_)'}, vs == ['Some']))
+                continue
+            bs = [v_.replace('lit:', '') for v_ in vs]
+            if bs == ['true'] or bs == ['false']:
+                out.append(('c', c[1], bs == ['true']))
                 continue
         if c[0] == 'g' and isinstance(c[1], dict):
             out.append(('g', normalize_frames([c[1]])[0]) + tuple(c[2:]))
@@ -241,6 +315,9 @@ def vocabulary(T, vs):
         kk = v.get('k')
         if kk == 'var':
             return go(v['v'])
+        if kk == 'op' and v.get('op') in ('==', '!=') and _cmp_key(v) is not None:
+            out.add(_cmp_key(v))      # a comparison of two non-boolean values is one atomic test
+            return
         if kk == 'op' and v.get('op') in ('!', '&&', '||', '==', '!='):
             for a in v.get('args', []):
                 go(a)
@@ -249,13 +326,16 @@ def vocabulary(T, vs):
             go(v['c']); go(v['t']); go(v['e'])
             return
         if kk == 'call' and v.get('f') == 'is_empty' and isinstance(v.get('recv'), dict):
-            r = vt.strip(v['recv'])
-            if isinstance(r, dict) and r.get('k') == 'vecof':
+            r = _built_list(v['recv'])
+            if r is not None:
                 for it in r.get('items', []):
                     for fr in it.get('guard', []):
                         if fr.get('k') == 'if':
                             go(fr['c'])
                 return
+        if kk == 'call' and v.get('f') in ('is_some', 'is_none') and isinstance(v.get('recv'), dict) and not v.get('args') and _option_presence(v['recv']) is not None:
+            go(_option_presence(v['recv'])[0])
+            return
         k = key_of(T, v)
         if k is not None:
             out.add(k)
